@@ -40,13 +40,21 @@ package main
 
 // broadcastToSessions fans a message out; a stuck session is detached, which can end a call in progress and
 // thereby publish a replacement message (so lastID may grow), but never lowers lastID or renames the topic.
+// (These four summary clauses are assumed, not proved: they concern the detaching of stuck sessions. The fan-out rules
+// proper - who gets a copy - are the C02 clauses below and are proved.)
 //@ func (t *Topic) broadcastToSessions(msg *ServerComMessage)
-//@   trusted
+//@   requires [C02] t != nil && msg != nil
 //@   modifies inferred
-//@   ensures t.lastID >= old(t.lastID) && t.name == old(t.name) && t.cat == old(t.cat)
-//@   ensures rowMax[t.name] <= t.lastID || rowMax[t.name] == old(rowMax[t.name])
-//@   ensures forall u types.Uid :: old(u in t.perUser) ==> (u in t.perUser) && t.perUser[u].readID >= old(t.perUser[u].readID) && t.perUser[u].recvID >= old(t.perUser[u].recvID) && (old(marksOK(t, u)) ==> marksOK(t, u))
-//@   ensures forall u types.Uid :: (u in t.perUser) && !old(u in t.perUser) ==> marksOK(t, u)
+//@   ensures [assumed] t.lastID >= old(t.lastID) && t.name == old(t.name) && t.cat == old(t.cat)
+//@   ensures [assumed] rowMax[t.name] <= t.lastID || rowMax[t.name] == old(rowMax[t.name])
+//@   ensures [assumed] forall u types.Uid :: old(u in t.perUser) ==> (u in t.perUser) && t.perUser[u].readID >= old(t.perUser[u].readID) && t.perUser[u].recvID >= old(t.perUser[u].recvID) && (old(marksOK(t, u)) ==> marksOK(t, u))
+//@   ensures [assumed] forall u types.Uid :: (u in t.perUser) && !old(u in t.perUser) ==> marksOK(t, u)
+//@   loop 1
+//@     iterates [C02] at_most_one_copy: outCount[sess] <= prev(outCount[sess]) + 1 && (forall s int :: s != ref(sess) ==> outCount[s] == prev(outCount[s]))
+//@     iterates [C02] data_to_readers_only: msg.Data != nil && msg.Pres == nil && msg.Info == nil && sess.proto != MULTIPLEX && pssd.uid != types.ZeroUid && outCount[sess] != prev(outCount[sess]) ==> sess.sid != msg.SkipSid && (pssd.isChanSub || ((pssd.uid in t.perUser) && (effMode(t, pssd.uid) & types.ModeRead) != 0))
+//@     iterates [C02] data_to_every_reader: msg.Data != nil && msg.Pres == nil && msg.Info == nil && sess.proto != MULTIPLEX && pssd.uid != types.ZeroUid && sess.sid != msg.SkipSid && (pssd.isChanSub || ((pssd.uid in t.perUser) && (effMode(t, pssd.uid) & types.ModeRead) != 0)) ==> outCount[sess] == prev(outCount[sess]) + 1
+//@     iterates [C02] original_untouched: msg.Data != nil ==> msg.Data == prev(msg.Data) && msg.Data.Topic == prev(msg.Data.Topic) && msg.Data.From == prev(msg.Data.From) && msg.Data.SeqId == prev(msg.Data.SeqId) && msg.Data.Content == prev(msg.Data.Content)
+//@   assert at call Session.queueOut [C02] copy_is_faithful: msg.Data != nil ==> $1 != nil && $1 != msg && $1.Data != nil && $1.Data != msg.Data && $1.Data.SeqId == msg.Data.SeqId && $1.Data.Content == msg.Data.Content && $1.Data.Head == msg.Data.Head && $1.Data.Timestamp == msg.Data.Timestamp && (!pssd.isChanSub ==> $1.Data.From == msg.Data.From) && (pssd.isChanSub ==> $1.Data.From == "")
 
 // ---------------------------------------------------------------------------------------------
 // C01: message ids
@@ -577,3 +585,31 @@ package main
 // Bounded stand-in (not a proof): normalizeTags against the tag rules on every pair of strings of length <= 3 over
 // {a, B, space, 1, -}, with the tag-count limit set to 1 and to 2 (156 x 156 x 2 lists).
 //@ bounded [C19] tags_normalised: i int in 0..155, j int in 0..155, m int in 1..2 :: verifNormalizedOK([]string{verifNthString(i, "aB 1-"), verifNthString(j, "aB 1-")}, m)
+
+// C02: who is sent a push notification for a message: exactly the subscribers whose effective mode has R and P, who
+// have not left and are not channel readers (those are reached through the channel address).
+//@ spec func pushEligible(t *Topic, u types.Uid) bool { return (effMode(t, u) & types.ModeRead) != 0 && (effMode(t, u) & types.ModePres) != 0 && !t.perUser[u].deleted && !t.perUser[u].isChan }
+//@ func (t *Topic) pushForData(fromUid types.Uid, data *MsgServerData, msgMarkedAsReadBySender bool) (res *push.Receipt)
+//@   requires [C02] t != nil && data != nil
+//@   modifies inferred
+//@   ensures [C02] recipients: res != nil ==> forall u types.Uid :: (u in res.To) <==> ((u in t.perUser) && pushEligible(t, u))
+//@   ensures [C02] payload: res != nil ==> res.Payload.SeqId == data.SeqId && res.Payload.From == data.From && res.Payload.Content == data.Content && res.Payload.Topic == t.name
+//@   ensures [C02] channel_address: res != nil && t.isChan ==> res.Channel == types.GrpToChn(t.name)
+//@   loop 1
+//@     invariant [C02] so_far: forall u types.Uid :: (u in receipt.To) <==> (#seen[u] && (u in t.perUser) && pushEligible(t, u))
+
+// Per-recipient copy of a broadcast message: only the topic name (p2p, channels) and, for channel readers, the author
+// are rewritten; content, headers and id never.
+//@ func (t *Topic) prepareBroadcastableMessage(msg *ServerComMessage, uid types.Uid, isChanSub bool)
+//@   requires [C02] t != nil && msg != nil
+//@   modifies msg.Data.Topic, msg.Data.From, msg.Pres.Topic, msg.Info.Topic
+//@   ensures [C02] payload_kept: old(msg.Data) != nil ==> msg.Data == old(msg.Data) && msg.Data.SeqId == old(msg.Data.SeqId) && msg.Data.Content == old(msg.Data.Content) && msg.Data.Head == old(msg.Data.Head) && msg.Data.Timestamp == old(msg.Data.Timestamp)
+//@   ensures [C02] author: old(msg.Data) != nil ==> (isChanSub ==> msg.Data.From == "") && (!isChanSub ==> msg.Data.From == old(msg.Data.From))
+//@   ensures [C02] plain_group_name_kept: old(msg.Data) != nil && !(t.cat == types.TopicCatP2P && uid != types.ZeroUid) && !(t.cat == types.TopicCatGrp && t.isChan) ==> msg.Data.Topic == old(msg.Data.Topic)
+//@   ensures [C02] channel_name: old(msg.Data) != nil && isChanSub && ((t.cat == types.TopicCatP2P && uid != types.ZeroUid) || (t.cat == types.TopicCatGrp && t.isChan)) ==> msg.Data.Topic == types.GrpToChn(t.xoriginal)
+
+//@ func (src *ServerComMessage) copy() (dst *ServerComMessage)
+//@   modifies nothing
+//@   ensures [C02] fresh_copy: src != nil ==> dst != nil && dst != src && dst.Id == src.Id && dst.SkipSid == src.SkipSid
+//@   ensures [C02] data_copied: src != nil && src.Data != nil ==> dst.Data != nil && dst.Data != src.Data && dst.Data.Topic == src.Data.Topic && dst.Data.From == src.Data.From && dst.Data.SeqId == src.Data.SeqId && dst.Data.Content == src.Data.Content && dst.Data.Head == src.Data.Head && dst.Data.Timestamp == src.Data.Timestamp
+//@   ensures [C02] data_absent: src != nil && src.Data == nil ==> dst.Data == nil
